@@ -3,6 +3,7 @@
     recursion).  No proofs. *)
 From Coq Require Import String ZArith QArith Bool Arith List.
 From GT Require Import Base.UTree Model.Reroot Model.Heap.
+From GT Require Model.Prune.
 Import ListNotations.
 Local Close Scope Q_scope.
 
@@ -109,3 +110,26 @@ Fixpoint rs_rec (fuel : nat) (cur : nat) (prev : option (nat * nat)) (h : heap) 
   end.
 
 Definition remove_single_nodes_heap (h : heap) : hres heap := rs_rec (hfuel h) (hroot h) None h.
+
+(** ** Tree.RemoveTips(revert, names...): the loop over the Tips() snapshot, BY POINTER.  Every
+    tip of the snapshot is first checked (len(tip.neigh) != 1: "The node named X is not a
+    tip"), whether its name is selected or not; a selected one goes to removeTip.  (The
+    UpdateTipIndex / ReinitInternalIndexes that follow do not touch the structure.) *)
+Fixpoint remove_tips_loop_heap (revert : bool) (names : list string) (tips : list nat) (h : heap) : hres heap :=
+  match tips with
+  | [] => HOk h
+  | x :: r =>
+    do hx <- get_node h x;
+    if negb (Nat.eqb (length (hneigh hx)) 1) then HErr (Prune.err_not_tip (hname hx))
+    else if Prune.selected revert names (hname hx)
+         then do h1 <- remove_tip_heap (hname hx) x h; remove_tips_loop_heap revert names r h1
+         else remove_tips_loop_heap revert names r h
+  end.
+
+(** Tree.Tips(): the nodes of Nodes() with one neighbour *)
+Definition tips_heap (h : heap) : hres (list nat) :=
+  do ns <- tree_nodes h;
+  HOk (filter (fun n => match alookup n (hnodes h) with Some hn => Nat.eqb (length (hneigh hn)) 1 | None => false end) ns).
+
+Definition remove_tips_by_pointer_heap (revert : bool) (names : list string) (h : heap) : hres heap :=
+  do ts <- tips_heap h; remove_tips_loop_heap revert names ts h.
